@@ -2,6 +2,8 @@ package main
 
 import (
 	"fmt"
+	"os"
+	"time"
 
 	"git.sr.ht/~rockorager/vaxis"
 
@@ -11,17 +13,34 @@ import (
 )
 
 func main() {
-	for _, inband := range []bool{true, false} {
-		sess, err := vxh.Start(40, 16, refterm.Caps{Unicode: true, RGB: true, Sync: true, InBand: inband, TextArea: true, KittyGfx: true, Sixel: true}, vaxis.Options{}, func(t *refterm.Terminal, c *memcon.Console) {
-			t.CellW, t.CellH = 10, 20
+	mode := os.Args[1]
+	caps := refterm.CapsFromMask(0x1ffff)
+	sess, err := vxh.Start(40, 10, caps, vaxis.Options{}, func(t *refterm.Terminal, c *memcon.Console) {
+		if mode == "appid" {
+			t.AppID = "prior;app"
+		}
+	})
+	if err != nil {
+		panic(err)
+	}
+	sess.Sync()
+	var before map[string]string
+	switch mode {
+	case "close-suspended":
+		sess.Vx.Suspend()
+		done := make(chan struct{})
+		go func() { sess.Vx.Close(); close(done) }()
+		select {
+		case <-done:
+			fmt.Println("Close returned")
+		case <-time.After(5 * time.Second):
+			fmt.Println("Close after Suspend HANGS")
+		}
+	default:
+		_ = before
+		sess.Vx.Close()
+		sess.Con.With(func() {
+			fmt.Println("mode2027 set:", sess.Term.Modes[2027], "appid:", sess.Term.AppID)
 		})
-		if err != nil {
-			panic(err)
-		}
-		evs, _ := sess.Sync()
-		for _, e := range evs {
-			fmt.Printf("%T %+v\n", e, e)
-		}
-		sess.Close()
 	}
 }
